@@ -101,6 +101,9 @@ def sample_options(rng, name, K, N, lead, with_aligner=False):
         s = rng.uniform(0.2, 2.0, size=(*lead, N))
         if rng.random() < 0.3:
             s = np.floor(rng.uniform(1, 5, size=(*lead, N)))
+        elif rng.random() < 0.35:
+            # any non-negative saliency with positive sum: e.g. signal power of a quiet or loud recording
+            s = s * float(rng.choice([1e-13, 1e-6, 1e4]))
         o['saliency'] = s
     if name == 'cacgmm':
         o['covariance_norm'] = [
